@@ -7,7 +7,8 @@ package splitcarfetcher
 // The Coq theorems take as a premise that a remote fetch which reports success filled the buffer with the
 // remote's bytes.  This harness checks that premise and the property itself on the real reader against a
 // loopback HTTP server whose behaviour is chosen per request: healthy (206 + Content-Range), error statuses with
-// a long body, a server that ignores Range (200 + whole file) or answers for another offset, a truncated body, a dropped connection.
+// a long body, a server that ignores Range (200 + whole file) or answers for another offset, a truncated body, a 206 with an
+// empty body (the client's read ends with a plain io.EOF), a dropped connection.
 // Oracle only (no Coq case file): every ReadAt returns exactly the file's bytes or an error; after a failed
 // fetch a healthy re-read tells the truth; reads reaching past the end are refused.
 //
@@ -187,6 +188,12 @@ func (s *vc17hServer) ServeHTTP(w http.ResponseWriter, r *http.Request) {
 		}
 	}
 	body := data[a : b+1]
+	if mode == "206-empty" { // the announced range, and a complete, EMPTY body: the client's read ends with a plain io.EOF
+		w.Header().Set("Content-Range", fmt.Sprintf("bytes %d-%d/%d", a, b, size))
+		w.Header().Set("Content-Length", "0")
+		w.WriteHeader(http.StatusPartialContent)
+		return
+	}
 	w.Header().Set("Content-Range", fmt.Sprintf("bytes %d-%d/%d", a, b, size))
 	w.Header().Set("Content-Length", strconv.Itoa(len(body)))
 	w.WriteHeader(http.StatusPartialContent)
@@ -362,7 +369,7 @@ func vc17hFds() int {
 func TestVerif_C17HTTP(t *testing.T) {
 	rng := vh.NewRng(vh.Seed())
 	rep := vh.NewReport("C17", "httpreader",
-		"HTTPSingleFileRemoteReaderAt.ReadAt against a loopback server: every history of length<=2 (3 in thorough) of reads x per-request server behaviour (healthy 206, 500/503/404/403 with a long body, Range ignored with 200, 206 for another offset, truncated body) over a 12-byte file incl. reads past the end, + random longer histories, + dropped connections, + every sequence of <=3 behaviours over the consecutive requests of ONE read (206, body broken off after k bytes of a 206 or of a 200, 200 whole file, 500, 206 for another offset; dropped connection in front) x read offsets {0,1,middle,end-len} x lengths {2,5,whole}, followed by healthy re-reads of the same and of an overlapping range; each followed by a healthy truth sweep; oracle only. Non-trivial: a history with at least one misbehaving request")
+		"HTTPSingleFileRemoteReaderAt.ReadAt against a loopback server: every history of length<=2 (3 in thorough) of reads x per-request server behaviour (healthy 206, 500/503/404/403 with a long body, Range ignored with 200, 206 for another offset, truncated body, 206 with an empty body) over a 12-byte file incl. reads past the end, + random longer histories, + dropped connections, + every sequence of <=3 behaviours over the consecutive requests of ONE read (206, body broken off after k bytes of a 206 or of a 200, 200 whole file, 500, 206 for another offset; dropped connection in front) x read offsets {0,1,middle,end-len} x lengths {2,5,whole}, followed by healthy re-reads of the same and of an overlapping range; each followed by a healthy truth sweep; + several remote files open at the same time (two loopback servers serving different content under the same path with the same size; controls with another size, another path, another query string; opened concurrently or in turn in a seeded order, interleaved and concurrent reads, readers closed and re-opened while the others keep reading: every read returns the bytes of its own remote); oracle only. Non-trivial: a history with at least one misbehaving request")
 	rep.CaseFiles = []string{} // oracle only: no Coq case file from this part
 	data := []byte("0123456789ab")
 	srv := &vc17hServer{data: data, mode: "ok"}
@@ -373,7 +380,7 @@ func TestVerif_C17HTTP(t *testing.T) {
 	fds0 := vc17hFds()
 
 	var alpha []vc17hOp
-	modes := []string{"ok", "500", "503", "404", "200-range-ignored", "206-other-range", "truncated"}
+	modes := []string{"ok", "500", "503", "404", "200-range-ignored", "206-other-range", "truncated", "206-empty"}
 	for _, r := range [][2]int{{0, 4}, {2, 4}, {4, 4}, {0, 12}, {8, 4}, {3, 2}, {11, 1}, {5, 0}} {
 		for _, m := range modes {
 			alpha = append(alpha, vc17hOp{Off: int64(r[0]), Len: r[1], Mode: m})
@@ -449,6 +456,8 @@ func TestVerif_C17HTTP(t *testing.T) {
 		rep.Count("random-long")
 	}
 	vc17hComposed(rep, srv, url, rng)
+	// several remote files open at the same time (c17multi_test.go)
+	vc17hMulti(rep, vh.Seed())
 	// dropped connections (each costs the client's retry back-off, ~0.7 s): a few directed histories
 	for _, ops := range [][]vc17hOp{
 		{{Off: 2, Len: 4, Mode: "drop"}},
